@@ -30,14 +30,14 @@ TABLE = [
     (r"^SealedState::next_unsealed\|extern\|<melstructs::BlockHeight as std::ops::AddAssign>::add_assign", "assume", "height < u64::MAX (bounded horizon)"),
     (r"^StakeSet::post_tip911\|assert\|Overflow\(Add\)\|\$2,1", "assume", "epoch < u64::MAX"),
     (r"^Tip911::calculate_merkle::c0\|index\|index\|\^self\.stakes,RangeToInclusive", "inv", "k ranges over 0..stakes.len()"),
-    (r"^UnsealedState::apply_tip_909\|assert\|Overflow\(Shr\)\|Shl\(1, 20\),Div\(", "assume", "halving index < 128, i.e. height < TIP-909 + 1.28e8 (bounded horizon; latent afterwards)"),
-    (r"^UnsealedState::apply_tip_909\|assert\|Overflow\(Sub\)\|Shr\(Shl\(1, 20\)", "inv", "x − (x >> k) and x − x/2 cannot underflow"),
+    (r"^UnsealedState::apply_tip_909\|assert\|Overflow\(Shr\)\|1048576,Div\(", "assume", "halving index < 128, i.e. height < TIP-909 + 1.28e8 (bounded horizon; latent afterwards)"),
+    (r"^UnsealedState::apply_tip_909\|assert\|Overflow\(Sub\)\|Shr\(1048576", "inv", "x − (x >> k) and x − x/2 cannot underflow"),
     (r"^UnsealedState::apply_tip_909\|extern\|<melstructs::CoinValue as std::ops::AddAssign>::add_assign", "assume", "fee pool + MEL taken from the pool ≤ MEL supply ≤ 2^127"),
     (r"^UnsealedState::apply_tip_909\|extern\|swap_many\|", "assume", "built-in pools keep non-zero reserves (created with 10^9 per side; swaps never drain a side to zero)"),
     (r"^UnsealedState::apply_tip_909\|unwrap\|unwrap\|SmtMapping::get\(\$1\.pools, PoolKey::new\(Denom::(Mel|Erg)\{\}, Denom::Sym\{\}\)\)", "inv", "create_builtins dominates in seal (C16.R1/R2); ERG/SYM exists because TIP-902 (180000) activates before TIP-909 (950000) and both use the same activation rule"),
     (r"^UnsealedState::collect_proposer_action_fee\|extern\|<melstructs::CoinValue as std::ops::Add>::add", "assume", "fee_pool/65536 + tips ≤ MEL supply ≤ 2^127"),
     (r"^UnsealedState::collect_proposer_action_fee\|extern\|<melstructs::CoinValue as std::ops::SubAssign>::sub_assign\|self\.fee_pool,Shr\(self\.fee_pool\.0, 16\)", "inv", "x − (x >> 16) cannot underflow"),
-    (r"^applytx::check_tx_validity\|extern\|<&u128 as std::ops::Add<u128>>::add", "assume", "inputs are distinct existing coins (C02.R3) and the supply of a denomination is ≤ 2^127 (the site the `overflow_coins` test exercises beyond the precondition)"),
+    (r"^applytx::check_tx_validity\|(extern\|<&u128 as std::ops::Add<u128>>::add|assert\|Overflow\(Add\))\|Option::unwrap_or\(HashMap::get\(in_coins, ", "assume", "inputs are distinct existing coins (C02.R3) and the supply of a denomination is ≤ 2^127 (the site the `overflow_coins` test exercises beyond the precondition)"),
     (r"^applytx::compute_doscmint_speed\|assert\|DivisionByZero\|", "inv", "called after this.history.get(coin.height)? succeeded (C18.R1): history holds only past headers, so coin.height < this.height"),
     (r"^applytx::compute_doscmint_speed\|extern\|<melstructs::BlockHeight as std::ops::Sub>::sub\|\$3,\$4", "inv", "coin.height < this.height (same reason)"),
     (r"^applytx::compute_doscmint_speed\|(assert\|Overflow\(Mul\)|extern\|pow)\|", "assume", "reached only after Proof::verify returned true, which in melpow 0.1.2 requires difficulty ≤ 64 (larger values panic inside verify: finding D11)"),
